@@ -4,13 +4,15 @@
 // paths share a base name, several paths carry byte-identical code, and the same (code, file) comes back later.
 // Every call is also issued alone on a freshly loaded package instance: the reference for "independent of earlier calls".
 const P = require('./pkgshim')
-const { cfg, STRING_METHODS, FULL } = require('./configs')
+const { cfg, STRING_METHODS, FULL, RENAMED } = require('./configs')
 
 const CONFIGS = [
   ['DEBUG', FULL],
   ['OFF', cfg({ methods: STRING_METHODS, verbosity: 'OFF' })],
   ['DEFAULT-VERBOSITY', cfg({ methods: STRING_METHODS })],
-  ['MANDATORY-COMMENTS', cfg({ methods: STRING_METHODS, verbosity: 'MANDATORY', comments: true })]
+  ['MANDATORY-COMMENTS', cfg({ methods: STRING_METHODS, verbosity: 'MANDATORY', comments: true })],
+  ['RENAMED-NO-LITERALS', Object.assign({}, RENAMED, { literals: false })],
+  ['RENAMED-CHAIN', Object.assign({}, RENAMED, { chainSourceMap: true, comments: true })]
 ]
 
 const ALARMING = ['unreachable', 'RuntimeError: unreachable executed', 'memory access out of bounds', 'index out of bounds', 'recursive use of an object detected', 'null pointer passed to rust', 'panicked at', 'wasm', 'Maximum call stack size exceeded', 'ENOENT', 'EACCES', 'timeout', 'aborted', 'fatal', 'out of memory', 'TypeError', 'not a function', 'undefined']
@@ -21,6 +23,7 @@ function programs (rng) {
     ['greet', `'use strict'\nfunction greet${id} (name, greeting) {\n  const msg = greeting + ', ' + name\n  return msg.trim() + '!'\n}\nmodule.exports = { greet${id}, label: 'a-label-long-enough-${id}' }\n`],
     ['tpl', `function t${id} (a, b) {\n  let acc = \`\${a}:\${b()}\`\n  acc += a\n  return acc.concat(b(), 'x')\n}\nmodule.exports = t${id}\n`],
     ['optchain', `function o${id} (a) {\n  return a?.trim().substring(1)\n}\nexports.o = o${id}\n`],
+    ['methods-only', `function mo${id} (a, b) {\n  return a.substring(1).concat(b.trim()).toUpperCase()\n}\nexports.mo = mo${id}\n`],
     ['notmodified', `function n${id} (a) {\n  return a * 2 + 1 - a\n}\nmodule.exports = n${id}\nconst text = 'some-literal-text-${id}'\n`],
     // the same text with one character changed (equal length): nothing to instrument / one operation
     ['edit-minus', `function m${id} (a, b) {\n  return a - b\n}\nexports.m = m${id}\n`],
@@ -65,7 +68,7 @@ function runHistory (rng, tag) {
   // few programs and few configurations per history, so that identical code meets different paths often
   const localProgs = rng.sample(progs, rng.range(2, 5))
   for (const pair of [['edit-minus', 'edit-plus']]) { const has = pair.filter(k => localProgs.some(p => p[0] === k)); if (has.length === 1) localProgs.push(progs.find(p => p[0] === pair.find(k => k !== has[0]))) }
-  const localCfgs = rng.sample(CONFIGS, rng.range(1, 2))
+  const localCfgs = rng.sample(CONFIGS, rng.range(1, 3))
   for (let step = 0; step < len; step++) {
     const [kind, code] = rng.pick(localProgs)
     const [cfgName, config] = rng.pick(localCfgs)
